@@ -357,6 +357,13 @@ class Context:
             out.append(cur)
         return out
 
+    def exc_class_code(self, simple_name):
+        """a fixed integer per exception class NAME (classes are told apart by their simple name)"""
+        d = self.__dict__.setdefault('_exc_codes', {})
+        if simple_name not in d:
+            d[simple_name] = 1000 + len(d)
+        return z3.IntVal(d[simple_name])
+
     def exc_isinstance(self, cls, target):
         """cls: name of raised class (builtin name or repo class name); target: str name or ClassInfo."""
         if isinstance(target, str) and cls.split('.')[-1] == target.split('.')[-1]:
@@ -666,7 +673,7 @@ class Context:
             return T.SeqO
         return T.SeqS
 
-    EVENT_FORMS = ('events', 'n_events', 'event_arg', 'event_result', 'at_event', 'event_raised', 'event_kwarg', 'event_self')
+    EVENT_FORMS = ('events', 'n_events', 'event_arg', 'event_result', 'at_event', 'event_raised', 'event_raised_class', 'event_callee', 'event_kwarg', 'event_self')
 
     def contract_event_names(self, contract):
         """Event names a contract speaks about (syntactic), incl. those of helper functions it calls."""
@@ -1329,8 +1336,9 @@ class Context:
                 if 0 <= k < lead and j < len(order[k].args):
                     return order[k].args[j]
             if ghosts:
-                raise Unsupported('event_arg(%s, %s, %s) over a trace that mixes concrete and summarised events: %s'
-                                  % (name, k, j, ['G' if isinstance(e, GhostSeg) else 'E%d' % len(e.args) for e in I.st.trace if getattr(e, 'name', None) == name]), node)
+                # an index into (or past) a summarised segment that is not at the start: nothing is known - an unconstrained value
+                self.qcount += 1
+                return VOpaque(z3.Const('missing-event!%d' % self.qcount, T.Obj), 'missing')
             if k is None:
                 # a quantified index over concrete events: a case distinction over the events there are
                 if not evs:
@@ -1671,13 +1679,38 @@ class Context:
         if fn == 'ext_value':
             # ext_value("package.module.Class.CONSTANT"): the external constant the code reads under that dotted name
             return self.extern_value(self.const_str(I, I.ev(node.args[0], frame)))
+        if fn == 'event_callee':
+            # event_callee(name, k): the qualified name of the repository function whose call was the k-th event of that name
+            # (several opaque functions may share an event name)
+            name = self.const_str(I, I.ev(node.args[0], frame))
+            k = VInt(I.as_int(I.ev(node.args[1], frame))).const()
+            evs = [e for e in I.st.trace if isinstance(e, Event) and e.name == name]
+            if k is None or k < 0 or k >= len(evs) or any(isinstance(e, GhostSeg) and e.name == name for e in I.st.trace):
+                self.qcount += 1
+                return VSeq(z3.Const('missing-callee!%d' % self.qcount, S.sort), 'str')
+            q_ = getattr(evs[k], 'callee', None) or ''
+            return VSeq(S.lit([ord(c_) for c_ in q_]), 'str')
+        if fn == 'event_raised_class':
+            # event_raised_class(name, k, "ClassName"): the k-th call of that callee raised an exception of (exactly) that class
+            name = self.const_str(I, I.ev(node.args[0], frame))
+            k = VInt(I.as_int(I.ev(node.args[1], frame))).const()
+            cname = self.const_str(I, I.ev(node.args[2], frame))
+            evs = [e for e in I.st.trace if isinstance(e, Event) and e.name == name]
+            if any(isinstance(e, GhostSeg) and e.name == name for e in I.st.trace):
+                k = None        # summarised events: nothing is known about which of them raised (an unconstrained answer)
+            if k is None or k < 0 or k >= len(evs):
+                self.qcount += 1
+                return VBool(z3.Const('missing-event-raised!%d' % self.qcount, T.B))
+            if not getattr(evs[k], 'raised', False) or getattr(evs[k], 'exc_cls', None) is None:
+                return VBool(z3.BoolVal(False))
+            return VBool(evs[k].exc_cls == self.exc_class_code(cname))
         if fn == 'event_raised':
             # did the k-th call of that callee raise (instead of returning)?
             name = self.const_str(I, I.ev(node.args[0], frame))
             k = VInt(I.as_int(I.ev(node.args[1], frame))).const()
             evs = [e for e in I.st.trace if isinstance(e, Event) and e.name == name]
             if any(isinstance(e, GhostSeg) and e.name == name for e in I.st.trace):
-                raise Unsupported('event_raised() over summarised events', node)
+                k = None        # summarised events: an unconstrained answer
             if k is None or k < 0 or k >= len(evs):
                 self.qcount += 1
                 return VBool(z3.Const('missing-event-raised!%d' % self.qcount, T.B))
@@ -1700,7 +1733,10 @@ class Context:
                 rkind = 'int' if rt is not None and rt.name == 'Int' else ('bool' if rt is not None and rt.name == 'Bool' else 'obj')
                 order = [e for e in I.st.trace if (isinstance(e, Event) or isinstance(e, GhostSeg)) and e.name == name]
                 if len(ghosts) > 1 or (ghosts and order[0] is not ghosts[0]):
-                    raise Unsupported('event_result() over a trace with several summarised segments', node)
+                    # several summarised segments (a recursive call under contract): nothing is known - an unconstrained value
+                    self.qcount += 1
+                    u_ = z3.Const('missing-event-res!%d' % self.qcount, T.Obj if rkind == 'obj' else z3.IntSort())
+                    return VInt(u_) if rkind == 'int' else (VBool(u_ != 0) if rkind == 'bool' else VOpaque(u_, 'missing'))
 
                 def rterm(v):
                     v = I.unwrap(v) if v is not None else NONE
@@ -2042,7 +2078,15 @@ class Context:
         dead = False
         try:
             for c in contract.of('ensures'):
-                v = self.eval_spec(I, c.args[0], env, contract.sidecar, pre, entry_env, result=res, has_result=True)
+                try:
+                    v = self.eval_spec(I, c.args[0], env, contract.sidecar, pre, entry_env, result=res, has_result=True)
+                except Unsupported as e_:
+                    # a post-condition that cannot be expressed over the caller's (summarised) view of the callee's events is simply not
+                    # used at this call site: the caller learns less, never more
+                    note_ = 'post-condition of %s not usable at a call site (%s)' % (contract.qualname, e_.msg[:80])
+                    if note_ not in self.notes:
+                        self.notes.append(note_)
+                    continue
                 I.assume(I.truthy(v))
         except PathEnd:
             dead = True
